@@ -29,6 +29,8 @@ pub struct GenCfg {
     pub pct_stray_source_file: u64,
     /// percent chance (per class) of a class with 70..150 distinct obfuscated method names
     pub pct_wide_class: u64,
+    /// allow names of ~16 KiB (3-byte length prefix); off for enumerations quadratic in file size
+    pub huge_names: bool,
 }
 
 impl GenCfg {
@@ -55,6 +57,7 @@ impl GenCfg {
             trailing_newline: rng.chance(3, 4),
             pct_stray_source_file: off(rng, 12),
             pct_wide_class: if rng.chance(1, 12) { 20 } else { 0 },
+            huge_names: true,
         }
     }
 }
@@ -97,9 +100,15 @@ pub const FILES: &[&str] = &["Foo.kt", "SourceFile", "R8$$SyntheticClass", "Bar.
 /// Largest line number of the representable domain (line numbers are < 2^32 - 1).
 pub const MAX_LINE: u64 = (1 << 32) - 2;
 
-fn long_name(rng: &mut Rng, base: &str) -> String {
-    // > 127 bytes, so the LEB128 length prefix in the string table needs two bytes
-    let n = rng.range(120, 300) as usize;
+fn long_name(rng: &mut Rng, base: &str, huge: bool) -> String {
+    // > 127 bytes, so the LEB128 length prefix in the string table needs two bytes; one time in
+    // four the total length sits exactly at a length-prefix boundary (1/2 bytes, 2/3 bytes)
+    let n = if rng.chance(1, 4) {
+        let pick = *rng.pick(&[126usize, 127, 128, 129, 255, 256, 16_383, 16_384, 16_385]);
+        (if huge || pick < 1000 { pick } else { 128 }).saturating_sub(base.len())
+    } else {
+        rng.range(120, 300) as usize
+    };
     let mut s = String::with_capacity(n + base.len());
     s.push_str(base);
     for i in 0..n {
@@ -175,7 +184,7 @@ pub fn gen_mapping(rng: &mut Rng, cfg: &GenCfg) -> Vec<u8> {
         let obf: String = {
             let base = OBF_CLASSES[rng.usize_below(cfg.class_pool.min(OBF_CLASSES.len()))];
             if rng.chance(cfg.pct_long_name, 100) {
-                long_name(rng, base)
+                long_name(rng, base, cfg.huge_names)
             } else if cfg.class_pool >= 16 && rng.chance(1, 2) {
                 // widen the universe for big files so that not everything collides
                 format!("{}.c{}", base, ci)
@@ -238,7 +247,7 @@ pub fn gen_mapping(rng: &mut Rng, cfg: &GenCfg) -> Vec<u8> {
                 if wide {
                     format!("m{}", mi)
                 } else if rng.chance(cfg.pct_long_name, 200) {
-                    long_name(rng, base)
+                    long_name(rng, base, cfg.huge_names)
                 } else {
                     base.to_string()
                 }
@@ -270,7 +279,7 @@ pub fn gen_mapping(rng: &mut Rng, cfg: &GenCfg) -> Vec<u8> {
                 let args: String = {
                     let a = ARGS[rng.usize_below(cfg.arg_pool.min(ARGS.len()))];
                     if rng.chance(cfg.pct_long_name, 300) {
-                        long_name(rng, "x.")
+                        long_name(rng, "x.", cfg.huge_names)
                     } else {
                         a.to_string()
                     }
@@ -370,6 +379,7 @@ pub fn gen_huge(rng: &mut Rng) -> Vec<u8> {
 pub fn gen_case_small(rng: &mut Rng, max_classes: u64, max_members: u64) -> (GenCfg, Vec<u8>) {
     let mut cfg = GenCfg::swarm(rng, max_classes, max_members);
     cfg.pct_wide_class = 0;
+    cfg.huge_names = false;
     let m = gen_mapping(rng, &cfg);
     (cfg, m)
 }
